@@ -126,6 +126,18 @@ class AddStream(Stream):
             kindB = "thru" if (rng.random() < 0.07 and K2 == M) else "random"
             A = [rand_slice(rng, N, K, True, kindA) for _ in range(nsA)]
             B = [rand_slice(rng, K2, M, False, kindB) for _ in range(nsB)]
+            if K2 == K and K >= 2 and rng.random() < 0.12:
+                # structured zeros: the product of the facing reflections vanishes in ONE order only
+                # (A reflects shared port 1 into shared port 0, B reflects shared port 0 into itself):
+                # (A.S12)(B.S21) = 0 although (B.S21)(A.S12) != 0 — both resolvents are still needed
+                for a_, b_ in zip(A, B):
+                    z = [[[0.0, 0.0] for _ in range(K)] for _ in range(K)]
+                    a_["S12"] = copy.deepcopy(z)
+                    b_["S21"] = copy.deepcopy(z)
+                    a_["S12"][0][1] = [0.5, 0.25]
+                    b_["S21"][0][0] = [0.25, -0.5]
+                    if rng.random() < 0.5:      # the mirrored situation
+                        a_["S12"], b_["S21"] = b_["S21"], a_["S12"]
             descs.append({"A": A, "B": B, "batched": batched})
         return descs
 
